@@ -445,4 +445,198 @@ def judge_c11(spec, gs, tbs, inputs, diags, dumps, maps, tdiffs, byk, jobs, info
             out['samples'].append({'grammar': g.text(), 'class': cls, 'reference_conflicts': [(k, v['kind'], v['prefer']) for k, v in list(tb.conflicts.items())[:4]],
                                    'diag_conflict_lines': [(s['idx'], nm, a) for s in d.states for nm, a in s['act'].items() if a[0] in ('rr', 'sr-red', 'sr-sh')][:4]})
 
-JUDGES = {'C01': judge_c01, 'C02': judge_c02, 'C09': judge_c09, 'C10': judge_c10, 'C14': judge_c14, 'C16': judge_c16, 'C11': judge_c11}
+
+def trace_actions(tr):
+    acts = []
+    for e in tr:
+        if e[0] in ('rec', 'lex', 'unexp', 'leave-cons'): continue
+        if e[0] == 'sh': acts.append(('sh', e[1], e[2]))
+        elif e[0] == 'red': acts.append(('red', e[1]))
+        elif e[0] in ('syntax', 'consume'): acts.append((e[0], e[1]))
+        else: acts.append(tuple(e[:2]) if len(e) > 1 else e)
+    return acts
+
+_EV = re.compile(r'([rxD])(\d+)(?:\[[^\]]*\])?\(([^)]*)\)=(\d+);|t(\d+):(\d+):(\d+)=(\d+);')
+def tree_from_events(events):
+    """rebuild the evaluation forest from a functor log: id -> (kind, rule, [children]); children are ids or term descriptors"""
+    nodes = {}; last = None
+    for m in _EV.finditer(events):
+        if m.group(1):
+            kids = []
+            for a in m.group(3).split(','):
+                if not a: continue
+                if a[0] in 'vi' and a[1:].lstrip('-').isdigit(): kids.append(('id', int(a[1:])))
+                else: kids.append(('t', a))
+            nodes[int(m.group(4))] = (m.group(1), int(m.group(2)), kids); last = int(m.group(4))
+        else:
+            nodes[int(m.group(8))] = ('t', int(m.group(5)), [('lex', int(m.group(6)), int(m.group(7)))])
+    return nodes, last
+
+def infix_shape(nodes, root):
+    """fully parenthesised rendering by term columns (for one-nonterminal expression grammars)"""
+    def go(i):
+        kind, rule, kids = nodes[i]
+        parts = []
+        for k in kids:
+            if k[0] == 'id': parts.append(go(k[1]))
+            else: parts.append(k[1].split(':')[1] if ':' in k[1] else k[1])
+        return '(' + ' '.join(parts) + ')'
+    return go(root)
+
+def shunting_shape(g, toks, cols):
+    """operator-precedence grouping, independent of LR tables, for grammars E->E op E | atom | ( E ) without explicit rule precedence.
+    top-of-stack operator o1 versus incoming o2: reduce iff prec(o1) > prec(o2) or equal and o1 is left-associative"""
+    binop = {}; atom = None; lp = rp = None
+    for r in g.rules:
+        if len(r.rhs) == 3 and r.rhs[0][0] == 'n' and r.rhs[2][0] == 'n': binop[r.rhs[1][1]] = True
+        elif len(r.rhs) == 1: atom = r.rhs[0][1]
+        elif len(r.rhs) == 3: lp, rp = r.rhs[0][1], r.rhs[2][1]
+    out = []; ops = []
+    def reduce_top():
+        o, c = ops.pop(); b = out.pop(); a = out.pop(); out.append('(%s %s %s)' % (a, c, b))
+    for t, c in zip(toks, cols):
+        if t == atom: out.append('(%d)' % c)
+        elif t == lp: ops.append(('(', c))
+        elif t == rp:
+            while ops and ops[-1][0] != '(': reduce_top()
+            o, c0 = ops.pop(); inner = out.pop(); out.append('(%d %s %d)' % (c0, inner, c))
+        else:
+            while ops and ops[-1][0] != '(':
+                o1 = ops[-1][0]; p1, p2 = g.terms[o1].prec, g.terms[t].prec
+                if p1 > p2 or (p1 == p2 and g.terms[o1].assoc == 'l'): reduce_top()
+                else: break
+            ops.append((t, c))
+    while ops: reduce_top()
+    return out[0] if len(out) == 1 else None
+
+def is_pure_binary(g):
+    if len(g.nts) != 1 or any(r.prec for r in g.rules): return False
+    ok = True; seen_ops = set()
+    for r in g.rules:
+        k = [s[0] for s in r.rhs]
+        if k == ['t']: continue
+        if k == ['n', 't', 'n']:
+            if r.rhs[1][1] in seen_ops: return False
+            seen_ops.add(r.rhs[1][1]); continue
+        if k == ['t', 'n', 't']: continue
+        return False
+    return bool(seen_ops)
+
+def judge_c05(spec, gs, tbs, inputs, diags, dumps, maps, tdiffs, byk, jobs, info, out):
+    C = out['counts']
+    crash_check('C05', gs, jobs, byk, info, out, 'site:parse@crash')
+    for gi, g in enumerate(gs):
+        tb = tbs[gi]; cls = gg.classify(tb)
+        C['grammars'] += 1
+        if cls in ('rr', 'acc') or diags[gi].has_rr: C['grammars_skipped_rr'] += 1; continue
+        nsr = sum(1 for c in tb.conflicts.values() if c['kind'] == 'sr')
+        C['sr_conflict_cells'] += nsr
+        C['sr_resolved_reduce'] += sum(1 for c in tb.conflicts.values() if c['prefer'] == 'reduce')
+        C['cells_compared'] += len(tb.states) * (g.T + 2)
+        if tdiffs[gi]:
+            viol(out, g, None, None, 'parse table differs from the documented resolution: ' + '; '.join(tdiffs[gi][:3]), diffs=tdiffs[gi][:10],
+                 terms=[(t.text, t.prec, t.assoc) for t in g.terms])
+            continue
+        pure = is_pure_binary(g)
+        if pure: C['pure_binary_grammars'] += 1
+        for idx, data in enumerate(inputs[gi]):
+            r = byk.get((gi, idx, 0))
+            if r is None: continue
+            ex = model.expect(g, tb, data)
+            if ex.res.hang: continue
+            C['evaluations'] += 1
+            if nsr and ex.ok and len(ex.res.reductions) >= 4: out['distinct'].append(common.sha(g.key(), data)[:12])
+            got = model.mask_positions(_COPYEV.sub('', r.events)); want = model.mask_positions(ex.events)
+            if (r.res == 1) != ex.ok or got != want:
+                viol(out, g, data, 0, 'result/derivation differs from the reference with the documented conflict resolution: observed (%s) %s expected (%s) %s' % (r.res, got[:200], ex.ok, want[:200]),
+                     terms=[(t.text, t.prec, t.assoc) for t in g.terms])
+                continue
+            if pure and ex.ok and ex.lex.lexerr is None:
+                nodes, root = tree_from_events(r.events)
+                shape = infix_shape(nodes, r.root) if r.root in nodes else None
+                want_shape = shunting_shape(g, [t[0] for t in ex.lex.toks], [t[4] for t in ex.lex.toks])
+                C['groupings_checked_by_operator_precedence'] += 1
+                if shape != want_shape:
+                    viol(out, g, data, 0, 'expression grouped as %s, operator precedence/associativity gives %s' % (str(shape)[:200], str(want_shape)[:200]),
+                         terms=[(t.text, t.prec, t.assoc) for t in g.terms])
+        if len(out['samples']) < 2 and nsr:
+            out['samples'].append({'grammar': g.text(), 'terms': [(t.text, t.prec, t.assoc) for t in g.terms], 'sr_cells': nsr,
+                                   'resolutions': [(k, v['prefer'], v['reduces']) for k, v in list(tb.conflicts.items())[:5]]})
+
+def judge_c08(spec, gs, tbs, inputs, diags, dumps, maps, tdiffs, byk, jobs, info, out):
+    C = out['counts']
+    crash_check('C08', gs, jobs, byk, info, out, 'site:parse@crash')
+    for gi, g in enumerate(gs):
+        C['grammars'] += 1
+        if not g.has_error() or not parseable(gi, gs, tbs, diags, tdiffs) or maps[gi] is None: C['grammars_skipped'] += 1; continue
+        tb = tbs[gi]; inv = {v: k for k, v in maps[gi].items()}
+        for idx, data in enumerate(inputs[gi]):
+            r0 = byk.get((gi, idx, 0)); r1 = byk.get((gi, idx, 1))
+            if r0 is None or r1 is None: continue
+            ex = model.expect(g, tb, data, state_map=inv)
+            if ex.res.hang: C['reference_step_limit'] += 1; continue
+            C['evaluations'] += 1
+            nerr = len(ex.res.errors)
+            C['syntax_errors_in_inputs'] += nerr
+            if nerr: out['distinct'].append(common.sha(g.key(), data)[:12])
+            if nerr and ex.ok: C['recovered_parses'] += 1
+            if nerr and not ex.ok: C['failed_recoveries'] += 1
+            C['states_popped'] += len(ex.res.popped); C['terms_discarded'] += len(ex.res.consumed_in_recovery)
+            got = model.mask_positions(_COPYEV.sub('', r0.events)); want = model.mask_positions(ex.events)
+            if (r0.res == 1) != ex.ok:
+                viol(out, g, data, 0, 'with %d syntax error(s): parse %s, the documented recovery algorithm %s' % (nerr, 'succeeded' if r0.res == 1 else 'failed', 'succeeds' if ex.ok else 'fails'))
+                continue
+            if got != want:
+                viol(out, g, data, 0, 'values kept/discarded differ from the documented recovery: observed %s expected %s' % (got[:250], want[:250])); continue
+            if r0.stream != ex.stream:
+                viol(out, g, data, 0, 'error reports differ: observed %r expected %r' % (r0.stream[:200], ex.stream[:200])); continue
+            acts = trace_actions(dg.parse_trace(r1.stream))
+            if acts != ex.trace:
+                k = next((i for i in range(min(len(acts), len(ex.trace))) if acts[i] != ex.trace[i]), min(len(acts), len(ex.trace)))
+                viol(out, g, data, 1, 'recovery steps differ from the documented algorithm at event %d: observed %s expected %s' % (k, acts[k:k + 4], ex.trace[k:k + 4]))
+        if len(out['samples']) < 2 and inputs[gi]:
+            for d in inputs[gi]:
+                e = model.expect(g, tb, d)
+                if e.res.errors and e.ok:
+                    out['samples'].append({'grammar': g.text(), 'input': d.decode('latin-1'), 'reference_actions': [str(a) for a in e.res.actions[:14]]}); break
+
+def judge_c13(spec, gs, tbs, inputs, diags, dumps, maps, tdiffs, byk, jobs, info, out):
+    C = out['counts']
+    crash_check('C13', gs, jobs, byk, info, out, 'site:context_parse@crash')
+    for gi, g in enumerate(gs):
+        C['grammars'] += 1
+        if not parseable(gi, gs, tbs, diags, tdiffs): C['grammars_skipped'] += 1; continue
+        tb = tbs[gi]
+        isctx = any(r.ftor == 'x' for r in g.rules)
+        for idx, data in enumerate(inputs[gi]):
+            if not isctx:
+                a = byk.get((gi, idx, 0)); b = byk.get((gi, idx, 20))
+                if a is None or b is None: continue
+                C['evaluations'] += 1; C['parse_vs_context_parse_compared'] += 1
+                if (a.res, a.root, a.events, a.stream) != (b.res, b.root, b.events, b.stream):
+                    viol(out, g, data, 20, 'context_parse differs from parse on a grammar that ignores the context: (%s,%s,%s) vs (%s,%s,%s)' % (b.res, b.root, b.events[:100], a.res, a.root, a.events[:100]))
+                continue
+            for mode in (20, 21, 22, 23, 24):
+                r = byk.get((gi, idx, mode))
+                if r is None: continue
+                ex = model.expect(g, tb, data, ctx_mode=mode)
+                if ex.res.hang: continue
+                C['evaluations'] += 1; C['contextual_calls_expected'] += ex.xcount
+                if ex.xcount >= 2: out['distinct'].append(common.sha(g.key(), data, str(mode))[:12])
+                got = model.mask_positions(_COPYEV.sub('', r.events)); want = model.mask_positions(ex.events)
+                m = re.search(r'ctx=(-?\d+),(\d+),(\d+),(\d+)', r.extra)
+                cnt, copies, moves, momoves = (int(x) for x in m.groups()) if m else (None, None, None, None)
+                if (r.res == 1) != ex.ok: C['acceptance_disagreements_left_to_C01'] += 1; continue
+                cat = {20: 'lvalue', 21: 'const lvalue', 22: 'rvalue temporary', 23: 'move-only lvalue', 24: 'lvalue (verbose)'}[mode]
+                if got != want:
+                    viol(out, g, data, mode, '%s context: functor log %s expected %s ("=" same object, "!" other object, c/m constness, #n calls seen so far)' % (cat, got[:250], want[:250]))
+                    continue
+                if copies or moves or momoves:
+                    viol(out, g, data, mode, '%s context was copied %d / moved %d times by the library' % (cat, copies, moves + momoves))
+                if mode in (20, 23, 24) and cnt != ex.xcount:
+                    viol(out, g, data, mode, '%s context: caller sees %s mutations after the call, %d contextual reductions happened' % (cat, cnt, ex.xcount))
+        if len(out['samples']) < 2 and inputs[gi] and isctx:
+            d = inputs[gi][len(inputs[gi]) // 2]
+            out['samples'].append({'grammar': g.text(), 'functors': [r.ftor for r in g.rules], 'input': d.decode('latin-1'), 'expected_log_lvalue': model.expect(g, tb, d, ctx_mode=20).events[:300]})
+
+JUDGES = {'C01': judge_c01, 'C02': judge_c02, 'C09': judge_c09, 'C10': judge_c10, 'C14': judge_c14, 'C16': judge_c16, 'C11': judge_c11, 'C05': judge_c05, 'C08': judge_c08, 'C13': judge_c13}
